@@ -326,6 +326,7 @@ _FLOATFN = {
     "abs": abs,
     "nonneg": lambda x: x,
     "remainder": lambda a, b: a - b * math.floor(a / b),
+    "fmod": math.fmod,
 }
 
 
@@ -522,7 +523,7 @@ def diff(x, v, memo=None):
                 r = Fraction(0)
             else:
                 r = div(add(mul(xx, dy), neg(mul(y, dx))), add(power(xx, 2), power(y, 2)))
-        elif name == "remainder":
+        elif name in ("remainder", "fmod"):
             r = da  # piecewise x - m*floor(x/m) for a constant modulus: derivative 1 almost everywhere
         elif isinstance(da, Fraction) and da == 0:
             r = Fraction(0)
